@@ -390,7 +390,7 @@ def redis_source_rules(ctx: Ctx, rule="R-C01-SOURCE") -> None:
 
 
 # ----------------------------------------------------------------------------- rabbitmq
-def rabbit_rules(ctx: Ctx, rule_t="R-C01-TRANSFER", rule_a="R-C01-ATOMIC") -> None:
+def rabbit_rules(ctx: Ctx, rule_t="R-C01-TRANSFER", rule_a="R-C01-ATOMIC", atomic_finding: bool = True) -> None:
     want = {"ack": ("basic_ack", {}), "nack": ("basic_nack", {"requeue": False}), "reject": ("basic_reject", {"requeue": True})}
     for op, (cmd, kws) in want.items():
         f = ctx.func(f"{C.RABBIT_BROKER}.{op}")
@@ -439,7 +439,7 @@ def rabbit_rules(ctx: Ctx, rule_t="R-C01-TRANSFER", rule_a="R-C01-ATOMIC") -> No
     if "self.enqueue" in calls:
         ok = [unparse(a) for a in calls["self.enqueue"].ast.args] == ["key", "payload", "params"]
         ctx.check(ok, rule_t, f, "rabbitmq requeue: enqueue(key, payload, params)", "same key, new payload and parameters", f"rabbitmq requeue publishes {unparse(calls['self.enqueue'].ast)}", instance="rabbitmq requeue: arguments")
-    if seq == [("ack", "enqueue")]:
+    if seq == [("ack", "enqueue")] and atomic_finding:
         ctx.fail(rule_a, f, "await self.ack(key); await self.enqueue(key, payload, params)",
                  "rabbitmq requeue is 'await ack(); await enqueue()' on one channel without an AMQP transaction: a cancellation (worker shutdown) or connection loss after the ack "
                  "and before the publish is confirmed loses the message", instance="rabbitmq requeue: atomic")
